@@ -273,6 +273,9 @@ class AbstractDateTime(AnyAtomicType):
             raise TypeError("wrong type %r for operand %r" % (type(other), other))
 
         if self._year != year:
+            if abs(self._year - year) <= 2 and isinstance(other, AbstractDateTime):
+                # The timezones can move the instants across a year boundary
+                return op(self.todelta(), other.todelta())
             return op(self._year, year)
         elif self._dt.tzinfo is dt.tzinfo:
             return op(self._dt, dt)
